@@ -61,7 +61,7 @@ def toF64 (b : Nat) : Nat :=
 /-- `i as f32` for an `i64`. -/
 def ofInt (i : Int) : Nat := withSign (decide (i < 0)) (roundMag i.natAbs 0)
 
-/-- the binary64 value survives the trip through binary32 unchanged. -/
-def exact (b : Nat) : Bool := toF64 (ofF64 b) == b
+/-- the binary64 value survives the trip through binary32 unchanged (and is no NaN there). -/
+def exact (b : Nat) : Bool := !isNaN (ofF64 b) && toF64 (ofF64 b) == b
 
 end F32
